@@ -30,7 +30,8 @@ TIMEOUT_MS = 60000
 
 HISTORIES = ['objective_first', 'decoy_sets', 'late_forall', 'formulate_between', 'solve_between', 'extra_decl']
 RO_MEMBERS = ['static-box', 'static-forall', 'static-norm1', 'ldr-mask', 'ldr-eq', 'static-maxof', 'static-lifted',
-              'static-ball', 'static-linset', 'two-rvars', 'static-box-zero-lb', 'static-vector']
+              'static-ball', 'static-linset', 'two-rvars', 'static-box-zero-lb', 'static-vector', 'pw-row-own-set',
+              'same-pw-constraint-two-sets-deferred']
 
 META = dict(
     functions=['rsome.ro.Model.st/minmax/maxmin/do_math/solve/reset', 'rsome.lp.RoConstr.forall', 'rsome.socp.Model.reset',
